@@ -13,7 +13,8 @@ protocol
       layouts   `b<w>` unsigned leaf, `g<w>` signed leaf, `K<name>` / `N<i>` a key, `s<n>` struct of n
                 (key, layout) pairs, `u<n>` union, `a<n>` array of length n (pops its element layout)
       objects   `V<store>` Signal(layout) (pops a layout), `P<idx>.<s1>/<s2>/…` Array of Signal(layout)
-                indexed by a signal whose value is idx, `i<v>` int, `D<n>` dict of n (key, object) pairs,
+                indexed by a signal whose value is idx, `P<i>_<j>_<k>.<n1>x<n2>x<n3>.<s1>/…` nested Arrays
+                `arr[i][j][k]` (signals in row-major order), `i<v>` int, `D<n>` dict of n (key, object) pairs,
                 `L<n>` list of n objects
       selection `mC` `mL` `mR` `mA` AssignType, `I<n>` iterable of n keys, `M<n>` mapping of n (key, selection) pairs
 -/
@@ -54,6 +55,21 @@ def mkSelMap : List Item → Option SelMap
 def popN (st : List Item) (n : Nat) : Option (List Item × List Item) :=
   if n ≤ st.length then some ((st.take n).reverse, st.drop n) else none
 
+def mkPTrees (l : List PTree) : PTrees :=
+  l.foldr PTrees.cons .nil
+
+/-- split into consecutive chunks of `n` -/
+def chunks {α} (n : Nat) (l : List α) : List (List α) :=
+  if n = 0 then [] else (List.range (l.length / n)).map fun i => (l.drop (i * n)).take n
+
+/-- the element tree with dimensions `dims` (outermost first) over the signals listed in row-major order -/
+def buildTree (dims : List Nat) (ts : List PTree) : Option PTree :=
+  if dims.any (· == 0) || ts.length ≠ dims.foldl (· * ·) 1 then none
+  else
+    match dims.reverse.foldl (fun ts d => (chunks d ts).map fun c => PTree.node (mkPTrees c)) ts with
+    | [t] => some t
+    | _ => none
+
 def rpnStep (st : Option (List Item)) (tok : String) : Option (List Item) :=
   match st with
   | none => none
@@ -77,8 +93,15 @@ def rpnStep (st : Option (List Item)) (tok : String) : Option (List Item) :=
       match rest.splitOn ".", st with
       | [i, ss], .lay l :: st' =>
         match i.toNat?, (ss.splitOn "/").mapM String.toNat? with
-        | some i, some stores => some (.obj (.proxy i stores (ofLayout l 0 0 true)) :: st')
+        | some i, some stores =>
+          (nestedProxy (.node (mkPTrees (stores.map PTree.leaf))) [i] (ofLayout l 0 0 true)).map fun o => Item.obj o :: st'
         | _, _ => none
+      | [is, ds, ss], .lay l :: st' =>
+        match (is.splitOn "_").mapM String.toNat?, (ds.splitOn "x").mapM String.toNat?, (ss.splitOn "/").mapM String.toNat? with
+        | some idxs, some dims, some stores =>
+          (buildTree dims (stores.map PTree.leaf)).bind fun t =>
+            (nestedProxy t idxs (ofLayout l 0 0 true)).map fun o => Item.obj o :: st'
+        | _, _, _ => none
       | _, _ => none
     else
       match rest.toNat? with
